@@ -65,6 +65,36 @@ theorem deSk_sk_eq (U : UrlOps) (fresh : Str → Str) (g : SGraph) (hn : NoGenid
         (fun l hl' => hl l (by simp only [slabels, List.mem_append]; exact Or.inl (Or.inr hl')))
     simp [h1, h2]
 
+/-- partial skolemisation (`skolemize(bnode=b)` for the nodes of `sel`) followed by a full `de_skolemize()` -/
+theorem deSk_skSel_eq (U : UrlOps) (fresh : Str → Str) (sel : List Str) (g : SGraph) (hn : NoGenid U g)
+    (hl : LabelsOk U g) :
+    deSkolemize U fresh (skolemizeSel U defaultAuthority rdflibSkolemGenid sel g) = g := by
+  have term : ∀ x : STerm,
+      (∀ u, x = .iri u → isRdflibSkolem U u = false ∧ isExternalSkolem U u = false) →
+      (∀ l ∈ x.labels, LabelOk U l) →
+      deskTerm U fresh (skTermSel U defaultAuthority rdflibSkolemGenid sel x) = x := by
+    intro x h1 h2
+    cases x with
+    | iri u => exact desk_sk_term U fresh (.iri u) h1 h2
+    | lit lex n => rfl
+    | bnode l =>
+      by_cases hs : l ∈ sel
+      · have := desk_sk_term U fresh (.bnode l) h1 h2
+        simpa [skTermSel, hs, skTerm, skTermAt] using this
+      · simp [skTermSel, hs, deskTerm]
+  induction g with
+  | nil => rfl
+  | cons t g ih =>
+    have ih' := ih (fun t' ht' => hn t' (List.mem_cons_of_mem _ ht'))
+      (fun l hl' => hl l (by simp only [slabels, List.mem_append]; exact Or.inr hl'))
+    simp only [deSkolemize, skolemizeSel, List.map_cons, List.map_map] at ih' ⊢
+    rw [ih']
+    have h1 := term t.1 (fun u hu => hn t List.mem_cons_self u (Or.inl hu))
+      (fun l hl' => hl l (by simp only [slabels, List.mem_append]; exact Or.inl (Or.inl hl')))
+    have h2 := term t.2.2 (fun u hu => hn t List.mem_cons_self u (Or.inr hu))
+      (fun l hl' => hl l (by simp only [slabels, List.mem_append]; exact Or.inl (Or.inr hl')))
+    simp [h1, h2]
+
 /-! ### the stateful code (`skolems` dict) acts as ONE label map per call
 
     The only thing used about the dict is that entries are added and never changed or dropped
